@@ -25,7 +25,7 @@ func extPushDelta(s *pxds.DiscoveryServer, con *pxds.Connection, req *model.Push
 	return nil
 }
 
-func extConnect(s *pxds.DiscoveryServer, node *corev3.Node, delta bool) (*pxds.Connection, *model.Proxy, error) {
+func extConnect(s *pxds.DiscoveryServer, node *corev3.Node, delta bool, dsink *sinkDeltaStream) (*pxds.Connection, *model.Proxy, error) {
 	return nil, nil, nil
 }
 
